@@ -237,7 +237,7 @@ def aligned_model(grid):
     return M.mesh_from_arrays(lon, lat, conn)
 
 
-DEFAULT_DIALECT = {"lon360": False, "fill": None, "start": 0, "dtype": "intp", "extra": [], "xyz_scale": 1.0, "centre_shift": 0.0}
+DEFAULT_DIALECT = {"lon360": False, "fill": None, "start": 0, "dtype": "intp", "extra": [], "xyz_scale": 1.0, "centre_shift": 0.0, "edge_flip": False, "centre_lon360": False, "int_coords": False}
 
 
 def _lon_out(lon, lon360):
@@ -260,6 +260,10 @@ def topology_kwargs(mesh, dialect):
         "node_lon": _lon_out(mesh.lon, d["lon360"]),
         "node_lat": np.array(mesh.lat, dtype=np.float64),
     }
+    if d["int_coords"] and np.all(kw["node_lon"] == np.rint(kw["node_lon"])) and np.all(kw["node_lat"] == np.rint(kw["node_lat"])):
+        # whole-degree coordinates typed as integers (np.arange-built grids)
+        kw["node_lon"] = kw["node_lon"].astype(np.int64)
+        kw["node_lat"] = kw["node_lat"].astype(np.int64)
     if fill is None:
         kw["face_node_connectivity"] = mesh.conn(fill=0, start=d["start"], dtype=dtype)
         kw["start_index"] = d["start"]
@@ -281,7 +285,7 @@ def topology_kwargs(mesh, dialect):
             c = M.normalize((1.0 - shift) * c + shift * first)
         if "face_lonlat" in extra:
             lo, la = M.lonlat_of(c)
-            kw["face_lon"], kw["face_lat"] = _lon_out(lo, d["lon360"]), la
+            kw["face_lon"], kw["face_lat"] = _lon_out(lo, d["lon360"] or d["centre_lon360"]), la
         if "face_xyz" in extra:
             kw["face_x"], kw["face_y"], kw["face_z"] = (c[:, 0] * sc).copy(), (c[:, 1] * sc).copy(), (c[:, 2] * sc).copy()
     if "edge_nodes" in extra or "edge_lonlat" in extra or "edge_xyz" in extra:
@@ -289,6 +293,9 @@ def topology_kwargs(mesh, dialect):
         # a deterministic but non-sorted edge order, to be unlike np.unique's
         pairs = pairs[1::2] + pairs[0::2]
         en = np.array(pairs, dtype=dtype) + d["start"]
+        if d["edge_flip"]:
+            # a source's edge rows need not be (lower, higher): store every other row reversed
+            en[::2] = en[::2, ::-1]
         kw["edge_node_connectivity"] = en
         c = mesh.edge_centres(pairs)
         if shift:
@@ -296,7 +303,7 @@ def topology_kwargs(mesh, dialect):
             c = M.normalize((1.0 - shift) * c + shift * first)
         if "edge_lonlat" in extra:
             lo, la = M.lonlat_of(c)
-            kw["edge_lon"], kw["edge_lat"] = _lon_out(lo, d["lon360"]), la
+            kw["edge_lon"], kw["edge_lat"] = _lon_out(lo, d["lon360"] or d["centre_lon360"]), la
         if "edge_xyz" in extra:
             kw["edge_x"], kw["edge_y"], kw["edge_z"] = (c[:, 0] * sc).copy(), (c[:, 1] * sc).copy(), (c[:, 2] * sc).copy()
     return kw
@@ -358,6 +365,7 @@ def open_source(spec, scratch=None):
         if spec["kind"] == "file":
             path = os.path.join(MESHFILES, spec["path"])
             g = ux.open_grid(path, use_dual=bool(spec.get("use_dual", False)))
+            g = derive_provenance(g, spec)
             return Source(spec, g, aligned_model(g), {"path": path}, None)
         mesh = M.build(spec["mesh"], spec.get("params"), spec.get("variant", 0), spec.get("jitter", 0.0))
         prov = spec.get("prov", "topology")
@@ -396,7 +404,34 @@ def open_source(spec, scratch=None):
             g = ux.open_grid(path, chunks={}) if dialect.get("chunks") else ux.open_grid(path)
         else:
             raise ValueError(f"unknown provenance {prov}")
+        g = derive_provenance(g, spec)
         return Source(spec, g, aligned_model(g), inputs, mesh)
+
+
+def derive_provenance(g, spec):
+    """Optional further provenance of the grid under test: a SECOND-GENERATION grid (opened from
+    the UGRID encoding of a grid on which some quantities had been derived) and/or a SUBSET of it
+    (Grid.isel).  Both are ordinary grids as far as every property is concerned."""
+    import uxarray as ux
+
+    re = spec.get("reencode")
+    if re is not None:
+        for nm in re:
+            try:
+                getattr(g, nm)
+            except Exception:
+                pass
+        g = ux.open_grid(g.to_xarray("ugrid"))
+    sub = spec.get("subset")
+    if sub:
+        n = g.n_face
+        idx, seen = [], set()
+        for x in sub:
+            if x % n not in seen:
+                seen.add(x % n)
+                idx.append(x % n)
+        g = g.isel(n_face=idx)
+    return g
 
 
 # ----------------------------------------------------------------------------
